@@ -3,7 +3,54 @@ module verifharness
 go 1.24.6
 
 require (
+	github.com/gin-gonic/gin v1.10.0
+	github.com/gofiber/fiber/v2 v2.52.6
 	github.com/junioryono/godi/v4 v4.0.0
+	github.com/junioryono/godi/v4/chi v0.0.0
+	github.com/junioryono/godi/v4/echo v0.0.0
+	github.com/junioryono/godi/v4/fiber v0.0.0
+	github.com/junioryono/godi/v4/gin v0.0.0
+	github.com/junioryono/godi/v4/http v0.0.0
+	github.com/labstack/echo/v4 v4.13.3
+)
+
+require (
+	github.com/andybalholm/brotli v1.1.0 // indirect
+	github.com/gabriel-vasile/mimetype v1.4.3 // indirect
+	github.com/gin-contrib/sse v0.1.0 // indirect
+	github.com/go-playground/locales v0.14.1 // indirect
+	github.com/go-playground/universal-translator v0.18.1 // indirect
+	github.com/go-playground/validator/v10 v10.20.0 // indirect
+	github.com/google/uuid v1.6.0 // indirect
+	github.com/klauspost/compress v1.17.9 // indirect
+	github.com/labstack/gommon v0.4.2 // indirect
+	github.com/leodido/go-urn v1.4.0 // indirect
+	github.com/mattn/go-colorable v0.1.13 // indirect
+	github.com/mattn/go-isatty v0.0.20 // indirect
+	github.com/mattn/go-runewidth v0.0.16 // indirect
+	github.com/pelletier/go-toml/v2 v2.2.2 // indirect
+	github.com/rivo/uniseg v0.2.0 // indirect
+	github.com/ugorji/go/codec v1.2.12 // indirect
+	github.com/valyala/bytebufferpool v1.0.0 // indirect
+	github.com/valyala/fasthttp v1.51.0 // indirect
+	github.com/valyala/fasttemplate v1.2.2 // indirect
+	github.com/valyala/tcplisten v1.0.0 // indirect
+	golang.org/x/crypto v0.31.0 // indirect
+	golang.org/x/net v0.33.0 // indirect
+	golang.org/x/sys v0.28.0 // indirect
+	golang.org/x/text v0.21.0 // indirect
+	google.golang.org/protobuf v1.34.1 // indirect
+	gopkg.in/yaml.v3 v3.0.1 // indirect
 )
 
 replace github.com/junioryono/godi/v4 => /repo
+
+replace github.com/junioryono/godi/v4/http => /repo/http
+
+replace github.com/junioryono/godi/v4/chi => /repo/chi
+
+replace github.com/junioryono/godi/v4/gin => /repo/gin
+
+replace github.com/junioryono/godi/v4/echo => /repo/echo
+
+replace github.com/junioryono/godi/v4/fiber => /repo/fiber
